@@ -406,6 +406,17 @@ impl<M: Math> Point<M> for TransformedPoint<M> {
     }
 }
 
+/// Classify a logp error raised while evaluating a candidate initial point: a recoverable
+/// error only means that the point is a bad place to start from (the caller may try another
+/// one), an unrecoverable error has to stop sampling.
+fn init_logp_error<E: LogpError + Send + Sync + 'static>(err: E) -> NutsError {
+    if err.is_recoverable() {
+        NutsError::BadInitGrad(Box::new(err))
+    } else {
+        NutsError::LogpFailure(Box::new(err))
+    }
+}
+
 pub struct TransformedHamiltonian<M: Math, T: Transformation<M>> {
     ones: M::Vector,
     zeros: M::Vector,
@@ -649,7 +660,7 @@ impl<M: Math, T: Transformation<M>> Hamiltonian<M> for TransformedHamiltonian<M,
         let transformation = self.transformation();
         point
             .init_from_untransformed_position(transformation, math)
-            .map_err(|e| NutsError::LogpFailure(Box::new(e)))?;
+            .map_err(init_logp_error)?;
 
         if !point.check_all(math) {
             Err(NutsError::BadInitGrad(
@@ -672,7 +683,7 @@ impl<M: Math, T: Transformation<M>> Hamiltonian<M> for TransformedHamiltonian<M,
             &point.untransformed_position,
             &mut point.untransformed_gradient,
         )
-        .map_err(|e| NutsError::LogpFailure(Box::new(e)))?;
+        .map_err(init_logp_error)?;
         // Force recomputation of transformed coordinates on first leapfrog step
         point.transform_id = -1;
         if !point.check_untransformed(math) {
